@@ -23,7 +23,7 @@ REQUIRED = {"C14": {"healthy-package": 200, "fault:duplicate": 30, "fault:defaul
                     "fault-raised-without-fms": 60, "fault-tolerated-with-fms": 60, "missing-package": 10, "disabled-class-skipped": 50,
                     "select:chooser-default": 50, "select:chooser-sim": 50, "select:auto-selector": 50, "select:auto-selector-unknown": 20,
                     "select:none": 30, "period-api": 200, "period-run": 60, "iteration-checked": 2000, "after-disable-silent": 100,
-                    "other-modes-silent-checked": 200, "chooser-options-checked": 200, "disable-after-run-silent": 30, "disable-mid-run": 15}}
+                    "other-modes-silent-checked": 200, "chooser-options-checked": 200, "disable-after-run-silent": 30, "disable-mid-run": 15, "reselected-between-periods": 50, "elapsed-time-checked": 500}}
 ASSUMPTIONS = {"C14": ["a mode class re-exported by a second module is not generated (the statement does not say whether it is found twice)",
                        "with several DEFAULT modes and the FMS attached the preselected mode may be any of them",
                        "periodic() before the first start() and start() twice without disable() are not generated (unspecified)"]}
@@ -104,6 +104,7 @@ def gen_case(rng, uid):
                             "end": rng.choice(["disabled", "teleop", "exit"]), "disable_after": rng.random() < 0.6,
                             "disable_at": rng.randrange(0, its) if rng.random() < 0.25 else None})
     return {"uid": uid, "pkg": pkg, "missing": missing, "modules": modules, "fault": applied, "fms": fms, "select": sel,
+            "reselect": rng.random() < 0.5,
             "sel_seed": rng.randrange(1 << 30), "style": style, "periods": periods}
 
 
@@ -302,7 +303,24 @@ def run_case(acc, case):
         if chosen_name is None:
             acc.ev("select:none")
         any_chosen_period = False
-        for period in case["periods"]:
+        for pi, period in enumerate(case["periods"]):
+            if pi and case.get("reselect") and names:
+                # between periods the dashboard string stops naming a mode (or names another one): each period chooses afresh
+                r = rng.random()
+                if r < 0.5:
+                    wpilib.SmartDashboard.putString("Auto Selector", rng.choice(["", "nosuchmode"]))
+                    chosen_name = None
+                    cur = read_chooser()
+                    pick = cur.get("selected") if cur.get("selected") in names + ["None"] else cur["default"]
+                    chosen_name = None if pick in (None, "None") else pick
+                else:
+                    pick = rng.choice(names)
+                    wpilib.SmartDashboard.putString("Auto Selector", pick)
+                    chosen_name = pick
+                if chosen_name is not None and chosen_name not in A["healthy"]:
+                    chosen_name = "<dup>"
+                chosen = A["healthy"].get(chosen_name) if chosen_name not in (None, "<dup>") else None
+                acc.ev("reselected-between-periods")
             del sel_rt.LOG[:]
             if case["style"] == "api":
                 r = run_api_period(acc, case, selector, period, chosen, chosen_name, e)
@@ -333,7 +351,7 @@ def run_case(acc, case):
         gc.collect()
 
 
-def check_period_log(acc, case, log, chosen, chosen_name, n_iter_expected, what):
+def check_period_log(acc, case, log, chosen, chosen_name, n_iter_expected, what, t_start=None, t_iters=None):
     """The automaton of the statement over one period's callback log.  Returns True if fine."""
     acc.checks += 3
     acc.ev("other-modes-silent-checked")
@@ -360,6 +378,13 @@ def check_period_log(acc, case, log, chosen, chosen_name, n_iter_expected, what)
     if any(not isinstance(t, float) or t < 0 for t in ts) or any(b < a for a, b in zip(ts, ts[1:])):
         acc.violation("C14/elapsed-time", f"{what}: on_iteration elapsed times {ts[:8]} are not non-decreasing", case, {})
         return False
+    if t_start is not None and t_iters is not None and len(t_iters) == len(ts):
+        # "elapsed time": time since this period was started, on the FPGA clock
+        for t, at in zip(ts, t_iters):
+            if abs(t - (at - t_start) / 1e6) > 1e-6:
+                acc.violation("C14/elapsed-time", f"{what}: on_iteration got elapsed time {t!r} at {(at - t_start) / 1e6!r} s after the period started", case, {})
+                return False
+        acc.ev("elapsed-time-checked", len(ts))
     return True
 
 
@@ -368,12 +393,15 @@ def run_api_period(acc, case, selector, ops, chosen, chosen_name, e):
     n_iter = 0
     mark = 0
     ended = False
+    t_start = None
+    t_iters = []
     for op in ops:
         k = op[0]
         try:
             if k == "adv":
                 e.advance(op[1])
             elif k == "start":
+                t_start = e.now()
                 selector.start()
                 started = True
                 mark = 0
@@ -388,6 +416,7 @@ def run_api_period(acc, case, selector, ops, chosen, chosen_name, e):
                         return "violation"
                 else:
                     n_iter += 1
+                    t_iters.append(e.now())
             elif k == "disable":
                 n0 = len(sel_rt.LOG)
                 selector.disable()
@@ -403,7 +432,7 @@ def run_api_period(acc, case, selector, ops, chosen, chosen_name, e):
             acc.violation("C14/api-raised", f"{k}() raised {ex!r}", case, {})
             return "violation"
     acc.ev("period-api")
-    if not check_period_log(acc, case, list(sel_rt.LOG), chosen, chosen_name, n_iter, "start/periodic/disable period"):
+    if not check_period_log(acc, case, list(sel_rt.LOG), chosen, chosen_name, n_iter, "start/periodic/disable period", t_start, t_iters):
         return "violation"
     return "ok"
 
